@@ -4,7 +4,7 @@
 From Lal Require Import Common.LBytes Common.Res Media.MediaMsgChecked Media.MediaMsgProofs Media.MediaDummyAudio Media.MediaDummyProofs
   Media.MediaTsRemux Media.MediaTsProofs Media.MediaRtspRemux Media.MediaRtspProofs Media.MediaBroadcast Media.MediaBroadcastProofs
   Media.MediaCodecGlue Media.MediaCostProofs Media.MediaAmortProofs.
-From Lal Require Import Codec.CodecBits Codec.CodecAvcSeqHeader Codec.CodecHevcSeqHeader.
+From Lal Require Import Codec.CodecBits Codec.CodecSpsAvc Codec.CodecSpsHevc Codec.CodecAvcSeqHeader Codec.CodecHevcSeqHeader Codec.CodecPadProofs.
 From Coq Require Import Lia ZifyN ZifyNat ZifyBool.
 Open Scope N_scope.
 
@@ -152,11 +152,11 @@ Proof. repeat split. Qed.
 (* the model the drivers run: no history step panics or runs out of fuel *)
 Lemma m_grun_no_panic c l :
   gc_add c = false ->
-  Forall (ev_ok (glue_rf fixes_all) glue_sf) l ->
+  Forall (ev_ok (glue_rf fixes_all) (glue_sf fixes_all)) l ->
   snd (m_grun fixes_all c l) = None.
 Proof.
   intros Hadd Hl. unfold m_grun.
-  apply (grun_ok fixes_all (glue_cf fixes_all) (glue_rf fixes_all) glue_sf cfg_fixed c fixes_all_ok glue_cf_safe glue_rf_safe Hadd l grp_init 0).
+  apply (grun_ok fixes_all (glue_cf fixes_all) (glue_rf fixes_all) (glue_sf fixes_all) cfg_fixed c fixes_all_ok glue_cf_safe glue_rf_safe Hadd l grp_init 0).
   - apply ginv_init.
   - exact Hl.
 Qed.
@@ -165,59 +165,46 @@ Qed.
 (* a well-framed message: 32-bit timestamp (type and payload are arbitrary) *)
 Definition well_framed (m : mmsg) : Prop := mm_ts m < 4294967296.
 
-(* known finding F-13 (naza dependency): if m is a video message whose payload parses as an
-   avc / hevc / enhanced-hevc sequence header record, ParseSps returns (a value or an error)
-   on the SPS it carries - i.e. the SPS does not end in a zero-width nazabits read *)
-Definition f13_free (m : mmsg) : Prop := stat_safe (glue_rf fixes_all) glue_sf m.
+(* after the F-13 repair avc/hevc.ParseSps return (a value or an error) on every byte string *)
+Lemma glue_avc_dims_ok sps : is_ok (glue_avc_dims fixes_all sps).
+Proof.
+  unfold glue_avc_dims. cbn [fx_pad fixes_all]. fold parse_sps_avc.
+  destruct (parse_sps_avc_total sps) as [[ctx ->]|[e [-> He]]]; [eexists; reflexivity|].
+  apply N.eqb_neq in He. rewrite He. eexists; reflexivity.
+Qed.
+Lemma glue_hevc_dims_ok sps : is_ok (glue_hevc_dims fixes_all sps).
+Proof.
+  unfold glue_hevc_dims. cbn [fx_pad fixes_all]. fold hevc_parse_sps.
+  destruct (hevc_parse_sps_total sps []) as [[c ->]|[e [-> He]]]; [eexists; reflexivity|].
+  apply N.eqb_neq in He. rewrite He. eexists; reflexivity.
+Qed.
+Lemma glue_stat_safe m : stat_safe (glue_rf fixes_all) (glue_sf fixes_all) m.
+Proof. intros _. repeat split; intros; first [apply glue_avc_dims_ok | apply glue_hevc_dims_ok]. Qed.
 
 Lemma no_panic_main (c : grp_cfg) (history : list gev) :
   gc_add c = false ->
-  (forall m, In (GPub m) history -> well_framed m /\ f13_free m) ->
+  (forall m, In (GPub m) history -> well_framed m) ->
   snd (m_grun fixes_all c history) = None.
 Proof.
   intros Hadd H. apply m_grun_no_panic; [exact Hadd|].
   apply Forall_forall. intros e He. destruct e as [m| | |]; cbn; try exact I.
-  destruct (H m He) as [Hw Hf]. split; assumption.
-Qed.
-
-Lemma short_video_f13_free m : (mm_type m = t_video -> lenN (mm_pay m) < 13) -> f13_free m.
-Proof.
-  intros Hs Hv. specialize (Hs Hv).
-  assert (L13 : (lenN (mm_pay m) <? 13) = true) by (apply N.ltb_lt; exact Hs).
-  assert (L33 : (lenN (mm_pay m) <? 33) = true) by (apply N.ltb_lt; lia).
-  repeat split.
-  - intros sps pps E. exfalso. cbn in E. unfold avc_parse_seq_header in E. rewrite L13 in E. discriminate.
-  - intros v sps q E. exfalso. cbn in E. unfold glue_hevc_parse, hevc_parse_seq_header_f in E.
-    destruct (lenN (mm_pay m) <? 5); [discriminate|]. destruct (negb _); [discriminate|]. rewrite L33 in E. discriminate.
-  - intros v sps q E. exfalso. cbn in E. unfold glue_hevc_parse_enh, hevc_parse_enhanced_seq_header_f in E.
-    destruct (CodecHevcSeqHeader.idx (mm_pay m) 0); cbn [bind] in E; try discriminate.
-    destruct (_ =? 0); [|discriminate]. unfold hevc_parse_record_f in E. cbn [fx_hevc fixes_all andb] in E.
-    rewrite L33 in E. discriminate.
-Qed.
-
-Lemma no_panic_short (c : grp_cfg) (history : list gev) :
-  gc_add c = false ->
-  (forall m, In (GPub m) history -> well_framed m /\ (mm_type m = t_video -> lenN (mm_pay m) < 13)) ->
-  snd (m_grun fixes_all c history) = None.
-Proof.
-  intros Hadd H. apply no_panic_main; [exact Hadd|]. intros m Hm. destruct (H m Hm) as [Hw Hs].
-  split; [exact Hw|apply short_video_f13_free; exact Hs].
+  split; [apply glue_stat_safe|exact (H m He)].
 Qed.
 
 (* amortised work of a whole history on the model the drivers run *)
 Lemma bounded_work_main (c : grp_cfg) (history : list gev) :
   gc_add c = false ->
-  (forall m, In (GPub m) history -> well_framed m /\ f13_free m) ->
+  (forall m, In (GPub m) history -> well_framed m) ->
   exists tot, m_gtotal fixes_all c history = Some tot /\
               tot <= (11 + joins_count history) * pubs_cost history
                      + (10 + joins_count history) * 4293 * pubs_count history.
 Proof.
   intros Hadd H. unfold m_gtotal.
-  destruct (gtotal_amort fixes_all (glue_cf fixes_all) (glue_rf fixes_all) glue_sf cfg_fixed c fixes_all_ok glue_cf_safe glue_rf_safe Hadd
+  destruct (gtotal_amort fixes_all (glue_cf fixes_all) (glue_rf fixes_all) (glue_sf fixes_all) cfg_fixed c fixes_all_ok glue_cf_safe glue_rf_safe Hadd
               (10 + joins_count history) history grp_init) as (tot & E & Hle).
   - apply ginv_init.
   - apply Forall_forall. intros e He. destruct e as [m| | |]; cbn; try exact I.
-    destruct (H m He) as [Hw Hf]. split; assumption.
+    split; [apply glue_stat_safe|exact (H m He)].
   - change (fan grp_init) with 8. lia.
   - exists tot. split; [exact E|].
     assert (P0 : phi (10 + joins_count history) grp_init = 0) by (unfold phi; vm_compute pending; change (dW (g_dummy grp_init)) with 0; lia).
